@@ -1,6 +1,6 @@
 (** C11 -- Vector aggregations aggregate exactly their group.  Statements only (proofs: Proofs/VaggP.v). *)
-From LogQLV Require Import Base.Bytes Base.FloatX Base.LMap Model.Tables Model.Stages Model.Engine Model.Metric Spec.MetricSpec Proofs.VaggP.
-From Coq Require Import Permutation.
+From LogQLV Require Import Base.Bytes Base.FloatX Base.LMap Model.Tables Model.Stages Model.Engine Model.Metric Spec.MetricSpec Proofs.VaggP Proofs.TopkP.
+From Coq Require Import Permutation Sorted.
 
 (** sum avg min max count stddev stdvar with by(L) / without(L) / no clause: at each step one series per distinct
     combination of retained labels ([restrict g] of the input's label set); its value is the aggregate of exactly the input
@@ -39,13 +39,44 @@ Theorem prefix_grouping_refuted :
   visible (vec_grouping_prefix (GBy [["a"%byte]]) (vec_grouping_prefix (GBy [["b"%byte]]) a)) = al_entries a.
 Proof. exact VaggP.prefix_grouping_refuted. Qed.
 
-(** sort / sort_desc return all series (a permutation of the input vector), same timestamp.  PARTIAL: that the
-    permutation is ordered by value, and the topk/bottomk selection through the bounded heap, are not theorems; they are
-    checked on every observed result (relations MRelSorted / MRelTopk) and by correspondence with the model. *)
-Theorem sort_permutation_partial : forall op s, (op = VSort \/ op = VSortDesc) ->
+(** sort / sort_desc return all series (a permutation of the input vector), same timestamp ... *)
+Theorem sort_permutation : forall op s, (op = VSort \/ op = VSortDesc) ->
   Permutation (st_samples (vheap_step vec_grouping op (-1) GNone s)) (st_samples s) /\ st_ts (vheap_step vec_grouping op (-1) GNone s) = st_ts s.
 Proof. exact sort_permutation_lemma. Qed.
-Print Assumptions sort_permutation_partial.
+Print Assumptions sort_permutation.
+
+(** ... ordered by value: ascending for sort, descending for sort_desc ([rank_le op a b] is [a <= b] resp. [b <= a] on the
+    float values), for every vector without NaN values (NaN ordering is excluded by the property). *)
+Theorem sort_sorted : forall op s, (op = VSort \/ op = VSortDesc) ->
+  Forall (fun sm => nonnan sm = true) (st_samples s) ->
+  StronglySorted (rank_le op) (st_samples (vheap_step vec_grouping op (-1) GNone s)).
+Proof. exact sort_sorted_lemma. Qed.
+Print Assumptions sort_sorted.
+
+(** topk(k) / bottomk(k), k > 0, with any grouping clause, on a NaN-free vector: restricted to any one group key, the output
+    is a sub-multiset [out] of the group's members -- the samples themselves, so values and full label sets are untouched --
+    with |out| = min(k, |members|), every kept sample ranking at or before every omitted one (largest first for topk,
+    smallest first for bottomk), listed in rank order.  (k = 0 yields the empty vector by definition of [vheap_step];
+    which of several equal-valued candidates at the cut is kept is not constrained, as in the property.) *)
+Theorem topk_groups : forall op k g s key,
+  (0 < k)%Z -> Forall (fun sm => nonnan sm = true) (st_samples s) ->
+  let keyf := fun sm : sample => key_of (vec_grouping g (snd sm)) in
+  let members := filter (fun sm => lmap_eqb (keyf sm) key) (st_samples s) in
+  let out := filter (fun sm => lmap_eqb (keyf sm) key) (st_samples (vheap_step vec_grouping op k g s)) in
+  exists dropped,
+    Permutation (out ++ dropped) members /\
+    Z.of_nat (length out) = Z.min k (Z.of_nat (length members)) /\
+    (forall d y, In d dropped -> In y out -> rank_le op y d) /\
+    StronglySorted (rank_le op) out.
+Proof. exact topk_groups_lemma. Qed.
+Print Assumptions topk_groups.
+
+Example c11_topk_nonvacuous :
+  let al v := {| al_entries := [(["a"%byte], [v])]; al_without := []; al_by := None |} in
+  let s := {| st_ts := 5; st_samples := [(one, al "1"%byte); (float_of_Z 3, al "2"%byte); (float_of_Z 2, al "3"%byte)] |} in
+  forallb nonnan (st_samples s) = true /\
+  map (fun sm : sample => visible (snd sm)) (st_samples (vheap_step vec_grouping VTopk 2 GNone s)) = [[(["a"%byte], ["2"%byte])]; [(["a"%byte], ["3"%byte])]].
+Proof. vm_compute. split; reflexivity. Qed.
 
 Example c11_nonvacuous :
   let al k v := {| al_entries := [(["a"%byte], [k]); (["b"%byte], [v])]; al_without := []; al_by := None |} in
